@@ -73,7 +73,7 @@ func main() {
 	if *timeout > 0 {
 		cfg.TimeoutMs = *timeout
 	} else if *tier == "thorough" {
-		cfg.TimeoutMs = 300_000
+		cfg.TimeoutMs = 30_000
 	} else {
 		cfg.TimeoutMs = 20_000
 	}
